@@ -41,7 +41,19 @@ SuccessComplete(r) == LET o == r.obs sc == r.sc IN
         \* written once: one write carries the generated source (to -out, to fd 1, or to a
         \* temporary that is renamed onto -out); -out is truncated at most once
         /\ o.straceOK => (o.srcWrites = 1 /\ o.truncOpens <= 1)
-C17(r) == FailureWritesNothing(r) /\ SuccessComplete(r) /\ InfoOnly(r)
+(* the failures C17 names, where the scenario contains one by construction   *)
+(* and whatever stands at -out plays no part in it: an unknown type or a      *)
+(* non-interface in the argument list, a package that cannot be loaded, a    *)
+(* mock name go/format rejects, a destination that cannot be written          *)
+MustFail(sc) ==
+    /\ ~Informational(sc)
+    /\ \/ sc.flag = "bad"
+       \/ sc.args \in {"none", "one", "missing1", "missing2", "notiface2", "badalias", "dup", "flagslast"}
+       \/ sc.mod # "tidy"
+       \/ sc.prior \in {"parentfile", "dir"}
+       \/ sc.fault # "none"
+FailsWhenItMust(r) == MustFail(r.sc) => r.obs.exit # 0
+C17(r) == FailureWritesNothing(r) /\ SuccessComplete(r) /\ InfoOnly(r) /\ FailsWhenItMust(r)
 
 (* C18 *)
 C18(r) == r.obs.otherChanged = <<>> /\ (r.obs.straceOK => r.obs.foreignWrites = <<>>)
@@ -78,6 +90,12 @@ C07(r) == (r.sc.prior = "ownstub" /\ r.sc.out # "stdout" /\ r.obs.exit = 0 /\ r.
 (* an earlier generation left at -out                                        *)
 C14(r) == (r.sc.prior \in {"own", "ownnoop", "ownlong", "ownstub", "owncase"} /\ r.sc.out # "stdout" /\ r.obs.exit = 0 /\ r.sc.flag = "none") => r.obs.outEqualsRef
 
+(* C03, C04, C08 at the command line: the run-time properties are shown for  *)
+(* the mock a command generates; after a successful run the file at -out is  *)
+(* that mock, whatever an earlier run with other flags or an older source    *)
+(* left there                                                                *)
+Current(r) == (PriorIsFile(r.sc) /\ r.sc.out # "stdout" /\ r.obs.exit = 0 /\ r.sc.flag = "none") => r.obs.outEqualsRef
+
 (* conformance with the prediction of spec/Cli.tla *)
 Conforms(r) == LET o == r.obs p == r.pred IN
     /\ o.exit = p.exit
@@ -86,7 +104,7 @@ Conforms(r) == LET o == r.obs p == r.pred IN
     /\ p.version <=> o.versionPrinted
 
 Check(name, ok) == IF ok THEN {} ELSE {name}
-Verdict(r) == Check("C07", C07(r)) \cup Check("C14", C14(r)) \cup Check("C15", C15(r)) \cup Check("C16", C16(r)) \cup Check("C17", C17(r)) \cup Check("C18", C18(r)) \cup Check("C19", C19(r))
+Verdict(r) == Check("C03", Current(r)) \cup Check("C04", Current(r)) \cup Check("C08", Current(r)) \cup Check("C07", C07(r)) \cup Check("C14", C14(r)) \cup Check("C15", C15(r)) \cup Check("C16", C16(r)) \cup Check("C17", C17(r)) \cup Check("C18", C18(r)) \cup Check("C19", C19(r))
               \cup Check("drift", Conforms(r))
 
 Init == l = 1 /\ fails = {}
